@@ -60,6 +60,8 @@ func (c *Ctx) emitOp03(r opRun, m modeling.Mesh) {
 		c.Emit("c03.holds."+r.name+"_spec", in+" "+out, "true")
 	case "append":
 		c.Emit("c03.holds.append_spec", r.args+" "+out, "true")
+	case "repeat":
+		c.Emit("c03.holds.repeat_spec", r.args+" "+out, "true")
 	case "setattr":
 		c.Emit("c03.holds.frame_spec", f[0]+" "+f[1]+" "+in+" "+out, "true")
 	case "translate", "scale", "rotate", "center", "normalize", "laplacian":
